@@ -462,10 +462,10 @@ theorem stepOp_vstep (C : Crypto) (L : Loc) (e : Ep) (o : Op) :
     split
     · exact .refl _
     · split
-      · exact VSteps.of_eq rfl
+      · exact .one (.conn _ .closed (by decide))
       · split
-        · exact VSteps.of_eq rfl
-        · exact VSteps.of_eq rfl
+        · exact .one (.conn _ .closed (by decide))
+        · exact .one (.conn _ .closed (by decide))
   | tick => exact .refl _
   | deadline =>
     simp only [stepOp, onDeadline]
